@@ -120,6 +120,7 @@ SortedSeq(S) ==
     LET RECURSIVE Go(_)
         Go(R) == IF R = {} THEN <<>> ELSE LET m == CHOOSE x \in R : \A y \in R : x <= y IN <<m>> \o Go(R \ {m})
     IN Go(S)
-Terminals(t) == {i \in Occ(t) : t.nodes[i].leaf}
-Decisions(t) == {i \in Occ(t) : ~t.nodes[i].leaf}
+\* computed from the links, not from the stored flag: a terminal is a node without children
+Terminals(t) == {i \in Occ(t) : NumChildren(t.nodes[i]) = 0}
+Decisions(t) == {i \in Occ(t) : NumChildren(t.nodes[i]) > 0}
 =============================================================================
